@@ -38,7 +38,7 @@ var c07Orders = []string{"Ic Io Od Oo", "Ic Od Io Oo", "Ic Od Oo Io", "Od Ic Io 
 // goroutine schedule, so each is repeated; every schedule must satisfy 6.8)
 var c07SimulOrders = []string{"Ic Od Io|Oo", "Od Ic Io|Oo"}
 
-const c07SimulRepeat = 8
+const c07SimulRepeat = 16
 
 func c07CollisionCases() int {
 	return len(c07SingleEvents) + 2*len(c07Orders) + 2*len(c07SimulOrders)*c07SimulRepeat
